@@ -6,6 +6,7 @@ import random
 import symtable
 import warnings
 
+import c16_finddef as FD
 import c16_gen
 import c16_lib as L
 import corpus
@@ -16,7 +17,7 @@ ID = 'C16'
 LEAN_MODULES = ['Pfst.Props.C16']
 THEOREMS = [
     'Pfst.C16.scopeWalk_eq_spec_partial', 'Pfst.C16.ownedWalk_eq_owned', 'Pfst.C16.scopeWalk_filtered',
-    'Pfst.C16.scopeWalk_back_perm', 'Pfst.C16.scopeWalk_back_eq_spec', 'Pfst.C16.scopeWalk_replace',
+    'Pfst.C16.scopeWalk_back_perm', 'Pfst.C16.scopeWalk_back_eq_spec', 'Pfst.C16.scopeWalk_replace', 'Pfst.C16.scopeWalk_asts',
     'Pfst.C16.scopes_partition', 'Pfst.C16.symbols_partial', 'Pfst.C16.scopeWalk_false_lambdaWalrus',
     'Pfst.Scope.walkRoot_eq', 'Pfst.Scope.step_ok', 'Pfst.Scope.mStep_snd', 'Pfst.Scope.mStep_emit', 'Pfst.Scope.fold_sym',
 ]
@@ -40,7 +41,10 @@ TRUSTED = [
     'stack_comprehension/walk_Comp and the scope branch of walk (forward and back=True, on="enter", no send(); replacement of '
     'the yielded node: class re-read after the yield); scope_symbols(full=True, local=True, free=True, import_star=False) as '
     'names per class',
-    'not modelled: send(), on="leave"/"both", asts=, node lists (only names) of scope_symbols, full=False, '
+    'asts=: modelled and swept for asts = all children of the scope node (walk root = that node); find_def() is swept against '
+    'the reference (plain / kind prefix / recurse=False / dotted paths / asts= slices of the body, all with prev_found '
+    'iteration), not modelled in Lean',
+    'not modelled: send(), on="leave"/"both", node lists (only names) of scope_symbols, full=False, '
     'import_star=True; the ORDER of the yielded nodes (compared with the model and tallied as walk_order, not judged: a '
     'comprehension root\'s multiple `if`s come last-to-first in the forward walk, bases and keywords of a nested class are not '
     'interleaved); walks are compared as node sets',
@@ -189,8 +193,12 @@ def _real(src):
             ws = [ids[id(g.a)] for g in f.walk(flt, self_=False, scope=True)] if flt is not None else None
             wb = [ids[id(g.a)] for g in f.walk(True, self_=False, scope=True, back=True)]
             wsb = [ids[id(g.a)] for g in f.walk(flt, self_=False, scope=True, back=True)] if flt is not None else None
+            wa = None
+            if n is not root.a:
+                kids = [c for c in util.soc(n)]
+                wa = [ids[id(g.a)] for g in f.walk(True, scope=True, asts=kids)]
             ss = f.scope_symbols(full=True)
-            scopes.append({'id': ids[id(n)], 'multi': multi, 'walk': w, 'walk_sym': ws, 'walk_back': wb, 'walk_sym_back': wsb,
+            scopes.append({'walk_asts': wa,'id': ids[id(n)], 'multi': multi, 'walk': w, 'walk_sym': ws, 'walk_back': wb, 'walk_sym_back': wsb,
                            'syms': {k: sorted(nm[x] for x in v) for k, v in ss.items()},
                            'names': {k: sorted(v) for k, v in ss.items()}})
     return {'f': 'C16.scopes', 'tree': tree}, scopes, ids, nodes, names, root
@@ -430,6 +438,15 @@ def _program(arg):
         case, scopes, ids, nodes, names, root = _real(src)
     except SyntaxError:
         return res
+    except Exception as e:
+        import traceback
+        tb = traceback.extract_tb(e.__traceback__)
+        where = next((t.name for t in reversed(tb) if '/fst/' in t.filename), '?')
+        res['fails'].append((f'C16|walk|raised|{type(e).__name__}@{where}',
+                             f'walk(scope=True) / scope_symbols() raised {type(e).__name__}: {str(e)[:160]}',
+                             {'src': src, 'scope': ['?', 0, 0]}))
+        res['raised'] = True
+        return res
     res['case'] = case
     res['scopes'] = scopes
     res['nscopes'] = len(scopes)
@@ -475,6 +492,57 @@ def _program(arg):
             fail(f'C16|walk-back|{_kindname(sc.node)}|{_parent_field(root.a, nodes[d[0]])}',
                  f'filtered scope walk differs between directions: {[_kindname(nodes[i]) for i in d[:4]]}', sc.node, {'diff_ids': d[:10]})
         tally['walk_scopes'] = tally.get('walk_scopes', 0) + 1
+
+    # --- (1b) walk(scope=True, asts=<children of the scope node>): nothing of the node itself is excluded
+    for sc in ref.order:
+        n = sc.node
+        rs = by_id[to_id[id(n)]]
+        if rs['walk_asts'] is None:
+            continue
+        both = (sc, sc.parent)
+        exp = {to_id[id(m)] for m in ast.walk(n) if m is not n and not isinstance(m, LEAFS) and ref.scope_of.get(id(m)) in both}
+        leak_ids = {to_id[id(t)] for s_ in both if s_ is not None for tg in ref.leak.get(id(s_.node), {}).values() for t in tg}
+        real = {i for i in rs['walk_asts'] if not isinstance(nodes[i], LEAFS)}
+        allowed = set()     # "(except Comprehension NamedExpr.target)": walrus targets reached through comprehensions only
+        for m in ast.walk(n):
+            if isinstance(m, ast.NamedExpr) and ref.scope_of.get(id(m)) is not None:
+                s2 = ref.scope_of[id(m)]
+                while s2 is not None and s2 not in both and s2.is_comp:
+                    s2 = s2.parent
+                if s2 in both:
+                    allowed.add(to_id[id(m.target)])
+        missing, extra = exp - real, real - exp - leak_ids - allowed
+        if missing or extra:
+            d = sorted(missing | extra)
+            fail(f'C16|walk-asts|{_kindname(n)}|{"missing" if missing else "extra"}:{_parent_field(root.a, nodes[d[0]])}',
+                 f'walk(scope=True, asts=children) of {_kindname(n)}: missing {[_kindname(nodes[i]) for i in sorted(missing)[:3]]} '
+                 f'extra {[_kindname(nodes[i]) for i in sorted(extra)[:3]]}', n, {'missing': sorted(missing)[:10], 'extra': sorted(extra)[:10]})
+        tally['asts_walks'] = tally.get('asts_walks', 0) + 1
+
+    # --- (1c) find_def() against the reference: candidates = def/class statements belonging to the scope, source order
+    if mseed is not None or plan is None:
+        r1 = random.Random(mseed if mseed is not None else 1)
+        inv_nodes = {id(a): b for a, b in zip(ast.walk(tree), ast.walk(root.a))}
+        for (sc, parts, recurse, within, variant) in FD.cases_for(ref, r1, 24 if len(src) < 6000 else 8):
+            exp = [to_id[id(d)] for d in FD.resolve_all(ref, sc, parts, recurse, within)]
+            f = inv_nodes[id(sc.node)].f
+            kw = {'recurse': recurse}
+            if within is not None:
+                kw['asts'] = [inv_nodes[id(w)] for w in within]
+            path = '.'.join(parts)
+            w = {'find_def': {'path': path, 'recurse': recurse, 'asts_lines': [x.lineno for x in within] if within else None}}
+            try:
+                got = [ids[id(g.a)] for g in FD.enumerate_impl(f, path, len(exp) + 3, **kw)]
+            except Exception as e:
+                fail(f'C16|find_def|{variant}|raised:{type(e).__name__}', f'find_def({path!r}, recurse={recurse}) raised {e!r}', sc.node, w)
+                continue
+            tally['find_def'] = tally.get('find_def', 0) + 1
+            if got != exp:
+                cls = ('first' if (got[:1] != exp[:1]) else 'iteration')
+                w['find_def'].update({'expected_ids': exp, 'got_ids': got})
+                fail(f'C16|find_def|{variant}|{cls}',
+                     f'find_def({path!r}, recurse={recurse}{", asts=..." if within else ""}) enumerates {got}, the definitions belonging to the '
+                     f'scope in source order are {exp}', sc.node, w)
 
     # --- (2) scope_symbols vs reference classes
     for sc in ref.order:
@@ -617,6 +685,7 @@ def _programs(ctx, ngen, ncorpus, nstd):
 
 def _run(ctx, progs, do_corr=True):
     res = pmap(_program, [p if isinstance(p, tuple) else (p, None, None) for p in progs])
+    raised = [r for r in res if r.get('raised')]
     res = [r for r in res if r['case'] is not None]
     # ---- correspondence with the Lean model
     if do_corr:
@@ -648,6 +717,12 @@ def _run(ctx, progs, do_corr=True):
                           sorted(rw) == sorted(mw) and sorted(rs['walk_back']) == sorted(ms['walk_back']) else 'sets differ')
                 mw, mws, mow, rw = sorted(mw), sorted(mws), sorted(mow), sorted(rw)
                 rws = sorted(rws) if rws is not None else None
+                if rs['walk_asts'] is not None:
+                    ctx.tally('good_asts', ms['good_asts'])
+                    if sorted(rs['walk_asts']) != sorted(ms['walk_asts']):
+                        d.append(('walk_asts', rs['walk_asts'], ms['walk_asts']))
+                    if ms['good_asts'] and ms['walk_asts'] != ms['owned_asts']:
+                        ctx.brk('proof', 'scopeWalk_asts', f'model asts walk != spec on a good tree: {r["src"][:300]!r}')
                 if sorted(rs['walk_back']) != sorted(ms['walk_back']):
                     d.append(('walk_back', rs['walk_back'], ms['walk_back']))
                 if rs['walk_sym_back'] is not None and sorted(rs['walk_sym_back']) != sorted(ms['walk_sym_back']):
@@ -706,7 +781,7 @@ def _run(ctx, progs, do_corr=True):
         if bad:
             ctx.brk('correspondence', name, f'{bad} scopes differ; first: ' + str(ctx.corr_disagreements[0])[:1500])
     # ---- sweep failures
-    for r in res:
+    for r in res + raised:
         for k, v in r['tally'].items():
             ctx.dist.setdefault('sweep', {})
             ctx.dist['sweep'][k] = ctx.dist['sweep'].get(k, 0) + v
